@@ -28,6 +28,28 @@ CHECKS = {
          'Cut-off decisions within a 2^-20 relative band are accepted either way (rounding); mae through a '
          'rational sqrt enclosure. Trusted: Coq kernel + vm_compute, python harness.',
          'DESIGN.md section 6 (C07)'),
+ 'C09': ('Coq proof (objectives ignore zero-weight pairs whatever their coordinates; masked sources cannot change '
+         'iter_linear_fit (Leibniz equality); harmonic weight law; weights follow sources through concatenation) + '
+         'correspondence in Coq of corrupted-coordinate runs and of align_wcs fits with the exact model fit of the '
+         'true pairs with the true weights',
+         'Machine-checked theorems for all lists/weights/coordinates; each run feeds corrupted zero-weight inputs '
+         '(+-2^40) through the fitters and iter_linear_fit and compares with the exact model in Coq, checks '
+         'corrupt/drop invariance and the harmonic law on the implementation, and drives align_wcs (1..3 images '
+         'per group, weight columns in image/reference catalogs, shuffled scripted matcher) comparing the reported '
+         'fit in Coq with the exact fit of the true pairs carrying the true weights.',
+         'Rounding outside the theorems. The matcher is scripted (ground truth). Trusted: Coq kernel + vm_compute, '
+         'python harness, astropy/wcslib transforms used to compute expected tangent-plane coordinates.',
+         'DESIGN.md section 6 (C08/C09)'),
+ 'C15': ('Coq proof (arg-max pair, reference choice, true area, exact removal, sorted remainder, next image, grouping '
+         'order; all list lengths) + correspondence in Coq on every permutation of generated footprint sets',
+         'Machine-checked theorems about executable models of _max_overlap_pair, _max_overlap_image and the '
+         'align_wcs grouping block for every matrix / list length, with refutation witnesses for the pre-fix code '
+         '(F4, F5, F9); each run calls the private helpers with duck-typed rectangles in EVERY permutation of each '
+         'generated set (2..6 footprints, both enforce_user_order values) and compares indices, areas and the '
+         'remaining work list with the model in Coq; align_wcs end to end for the grouping order.',
+         'Spherical overlap areas are external (rectangles with exact areas are used at helper level). Ties are '
+         'checked against the property predicate only. Trusted: Coq kernel + vm_compute, python harness.',
+         'DESIGN.md section 6 (C15)'),
  'C17': ('Coq proof (Gauss-Jordan inverse correct for every order n; null vector => Singular) + per-run '
          'correspondence of the exact model with linalg.inv evaluated inside Coq',
          'Machine-checked theorems about an exact-rational model of the Gauss-Jordan algorithm (left and right '
